@@ -358,6 +358,18 @@ def search_counterexample(fc, case, seed=0, tries=3000, budget_s=20):
     def _on_vtalrm(signum, frame):
         raise _TryTimeout()
     rng = random.Random(seed)
+    # warm-up OUTSIDE the per-try CPU limit: the first native call imports the real package (several CPU seconds); an import
+    # interrupted by the per-try timer leaves half-initialised modules behind and every later try fails (seen with seed C19_1)
+    try:
+        import importlib
+        importlib.import_module("pennylane")
+        for extra in ("networkx", "scipy.optimize", "scipy.linalg", "scipy.sparse", "autograd"):
+            try:
+                importlib.import_module(extra)
+            except Exception:  # pylint: disable=broad-except
+                pass
+    except Exception:  # pylint: disable=broad-except
+        pass
     t0 = time.time()
     # one generated input must not eat the whole budget (a huge loop bound makes the REAL function run "forever"): per-try CPU limit
     try:
